@@ -546,7 +546,7 @@ func showInJS(env *env, out io.Writer, value any) error {
 			_, err = w.WriteString("]")
 		}
 		return err
-	case reflect.Pointer, reflect.UnsafePointer:
+	case reflect.Pointer:
 		if v.IsNil() {
 			s = "null"
 			break
@@ -749,7 +749,7 @@ func showInJSON(env *env, out io.Writer, value any) error {
 			_, err = w.WriteString("]")
 		}
 		return err
-	case reflect.Pointer, reflect.UnsafePointer:
+	case reflect.Pointer:
 		if v.IsNil() {
 			s = "null"
 			break
